@@ -231,6 +231,10 @@ def impl_form(B: bytes, body: bytes, buffer_size: int, short: int | None):
         return ("error", type(e).__name__)
 
 
+def _cps(s: str) -> str:
+    return ",".join(str(ord(c)) for c in s) if s else "-"
+
+
 def model_lines(B, chunks, max_mem=None, max_parts=None):
     return (f"trace {hexs(B)} {'~' if max_mem is None else max_mem} {'~' if max_parts is None else max_parts} "
             + ",".join(hexs(c) for c in chunks) if chunks else
@@ -376,9 +380,35 @@ def run(chk: Check) -> None:
         add(B, ch, rng.choice([None, 5, 20, n // 2, n, n + 1]), rng.choice([None, 0, 1, 2]))
         chk.case(("lim", B, body), True)
 
+    # ---- the header-block parser model (coq/C01/HeaderBlock.v) against MultipartDecoder._parse_headers
+    from werkzeug.sansio import multipart as M
+    hl, hi = [], []
+    HA = [b"\r\n", b"\n", b"\r", b" ", b"\t", b":", b"X-A", b"Content-Disposition", b"form-data; name=\"a\"", b"v", b"\xc3\xa9", b"\xff",
+          b"\x0b", b"\x1c", b"\xc2\x85", b"\xe2\x80\xa8", b"  ", b"a:b:c", b"\r\n ", b"\n\t"]
+    for _ in range(3000 if quick else 40000):
+        raw = b"".join(rng.choice(HA) for _ in range(rng.randint(0, 9)))
+        for blk in (raw, b"\n" + raw):
+            hl.append("headers " + hexs(blk))
+            try:
+                hi.append("ok " + ("|".join(f"{_cps(n)}={_cps(v)}" for n, v in M.MultipartDecoder(b"x")._parse_headers(blk)) or "-"))
+            except UnicodeDecodeError:
+                hi.append("UnicodeDecodeError")
+        chk.case(("hdr", raw), bool(raw))
+    chk.count("header-blocks", len(hl))
+
     exe = chk.build_modelrun("C01")
     if not exe:
         return
+    hres = chk.run_model(exe, hl)
+    if hres is not None:
+        hm = 0
+        for ln, a, b in zip(hl, hi, hres):
+            if a != b:
+                hm += 1
+                if hm <= 3:
+                    chk.broken("correspondence", "C01 header-block model vs _parse_headers", f"{ln}: impl {a[:200]} model {b[:200]}",
+                               case={"line": ln, "impl": a, "model": b})
+        chk.count("model:header-mismatches", hm)
     res = chk.run_model(exe, lines)
     if res is None:
         return
